@@ -37,8 +37,8 @@ var codePool = []int{200, 200, 200, 201, 202, 204, 206, 301, 302, 304, 400, 404,
 var exclCTPool = [][]string{nil, nil, nil, {"image/jpeg", "application/zip"}, {"text/csv"}, {"JSON"}, {"text/"}, {"application/x-custom", "image/"}}
 var pathPool = []string{"/p", "/p", "/p", "/p", "/p", "/p", "/metrics", "/a.png", "/x.gz", "/data.json", "/p.PNG", "/deep/path/file.txt"}
 
-var aeTokens = []string{"gzip", "br", "gzip", "br", "deflate", "identity", "*", "x-gzip", "brotli", "GZIP", "Br", "gzip2", "compress", "zstd", "bro", "gzi", "br-x", "", "abr", "gzipp"}
-var aeQ = []string{"", "", "", ";q=0", ";q=0.0", ";q=0.000", ";q=1", ";q=1.0", ";q=0.5", ";q=0.001", ";q=0.9", ";q=0.25", "; q=0.8", " ;q=0.3", ";Q=0.5",
+var aeTokens = []string{"gzip", "br", "gzip", "br", "GZip", "BR", "gZIP", "bR", "deflate", "identity", "*", "x-gzip", "brotli", "GZIP", "Br", "gzip2", "compress", "zstd", "bro", "gzi", "br-x", "", "abr", "gzipp"}
+var aeQ = []string{"", "", "", ";q=0", ";q=0.0", ";q=0.000", ";Q=0", ";Q=0", "; Q=0.000", ";Q=0.0", " ; Q = 0", ";Q=1", ";Q=0.9", ";q=1", ";q=1.0", ";q=0.5", ";q=0.001", ";q=0.9", ";q=0.25", "; q=0.8", " ;q=0.3", ";Q=0.5",
 	";q=1.5", ";q=abc", ";q=", ";q=0.5555", ";q=.5", ";q=-1", ";q=1e-3", ";q=00.5", ";q = 0.3", ";level=9;q=0.5", ";q=0.5;foo=bar", ";q=0;q=1", ";x=q=0", ";q=1.000", ";q=1.001", ";q=0.", ";q=2"}
 var aeQSimple = []string{"", "", "", ";q=0", ";q=0.0", ";q=0.000", ";q=1", ";q=1.0", ";q=0.5", ";q=0.001", ";q=0.9", ";q=0.25", "; q=0.8", ";q=abc", ";q=", ";q=1.5", ";level=9;q=0.5"}
 var aeSeps = []string{",", ", ", " ,", " , ", ",,", ",\t", ";", " "}
@@ -165,7 +165,10 @@ func genCase(r *hx.Rand, tier string) *caseT {
 	k.Path = hx.Pick(r, pathPool)
 	k.AE = genAE(r, simple)
 	if r.Chance(3, 5) { // make sure the middleware is usually active
-		k.AE = sp(hx.Pick(r, []string{"gzip", "br", "gzip, br", "br;q=0.9, gzip", "gzip;q=0.5, br;q=0.4", "deflate, gzip;q=1.0, *;q=0.5"}))
+		k.AE = sp(hx.Pick(r, []string{"gzip", "br", "gzip, br", "br;q=0.9, gzip", "gzip;q=0.5, br;q=0.4", "deflate, gzip;q=1.0, *;q=0.5",
+			"gzip", "br", "gzip, br", "GZIP", "Br, gzip;q=0.1",
+			// refusals, also spelled with an upper-case weight parameter or a mixed-case coding
+			"gzip;Q=0", "br;Q=0, gzip;q=0.5", "br;Q=0, gzip;Q=0", "gzip; Q=0.000, br", "GZip;Q=0", "BR;q=0, GZIP;Q=0.5", "gzip;q=0, br;q=0"}))
 	}
 	if !simple && r.Chance(1, 9) {
 		k.Pre = [][2]string{hx.Pick(r, [][2]string{{"Content-Encoding", "x-pre"}, {"X-Outer", "1"}, {"Vary", "Origin"}, {"Content-Type", "text/x-outer"}, {"Content-Encoding", ""}, {"Cache-Control", "private"}})}
@@ -226,6 +229,44 @@ func genCase(r *hx.Rand, tier string) *caseT {
 		}
 		if r.Chance(1, 4) {
 			k.Prog = append(k.Prog, opT{K: "F"})
+		}
+		return k
+	}
+	if !simple && r.Chance(1, 10) {
+		// header edits after the response was committed, with deletions (the map does not grow):
+		// rename a header, delete one and add another, delete only
+		early := [][2]string{{"Cache-Control", "no-store"}, {"X-Early", "original"}, {"Content-Language", "en"}, {"X-Custom", "v1"}}
+		hx.Shuffle(r, early)
+		n := r.Range(1, 3)
+		if r.Chance(1, 2) {
+			k.Prog = append(k.Prog, opT{K: "H", Key: "Content-Type", Vals: []string{hx.Pick(r, []string{"text/plain", "application/json", "text/html"})}})
+		}
+		for _, h := range early[:n] {
+			k.Prog = append(k.Prog, opT{K: "H", Key: h[0], Vals: []string{h[1]}})
+		}
+		switch r.Intn(4) { // the commit
+		case 0:
+			k.Prog = append(k.Prog, opT{K: "B", Data: chunk()})
+		case 1:
+			k.Prog = append(k.Prog, opT{K: "St", Code: hx.Pick(r, []int{200, 201, 404, 500})})
+		default:
+			k.Prog = append(k.Prog, opT{K: "W", Code: hx.Pick(r, []int{200, 200, 201, 404, 500})})
+		}
+		ndel := r.Range(1, n)
+		for _, h := range early[:ndel] {
+			k.Prog = append(k.Prog, opT{K: "D", Key: h[0]})
+		}
+		for i := r.Range(0, ndel); i > 0; i-- {
+			k.Prog = append(k.Prog, opT{K: "H", Key: hx.Pick(r, []string{"X-Cache-Control", "X-Late", "X-Renamed", "Etag"}), Vals: []string{"late"}})
+		}
+		if r.Chance(1, 4) {
+			k.Prog = append(k.Prog, opT{K: "H", Key: early[0][0], Vals: []string{"overwritten"}})
+		}
+		for i := r.Range(0, 3); i > 0; i-- {
+			if r.Chance(1, 5) {
+				k.Prog = append(k.Prog, opT{K: "F"})
+			}
+			k.Prog = append(k.Prog, opT{K: "B", Data: chunk()})
 		}
 		return k
 	}
@@ -311,6 +352,65 @@ func genCase(r *hx.Rand, tier string) *caseT {
 	return k
 }
 
+// genGroup generates an overlap group: 2–3 programs of small writes served at the same time through one
+// middleware instance with a minimum size (so that bytes are held back while another request writes).
+func genGroup(r *hx.Rand) []caseT {
+	n := r.Range(2, 3)
+	opt := optT{MinSize: hx.Pick(r, []int{64, 100, 512, 600, 1024, 2048, 4096, r.Range(16, 4096)})}
+	opt.NoBr = r.Chance(1, 4)
+	g := make([]caseT, n)
+	for i := range g {
+		k := caseT{Opt: opt, Path: "/o" + strconv.Itoa(i)}
+		k.AE = sp(hx.Pick(r, []string{"gzip", "br", "gzip, br", "gzip;q=0.5, br;q=0.4"}))
+		if r.Chance(1, 8) {
+			k.AE = genAE(r, false)
+		}
+		if r.Chance(2, 3) {
+			k.Prog = append(k.Prog, opT{K: "H", Key: "Content-Type", Vals: []string{hx.Pick(r, []string{"text/plain", "application/json", "text/html"})}})
+		}
+		if r.Chance(1, 2) {
+			k.Prog = append(k.Prog, opT{K: "W", Code: hx.Pick(r, []int{200, 200, 201, 404})})
+		}
+		nw := r.Range(1, 5)
+		for j := 0; j < nw; j++ {
+			sz := hx.Pick(r, []int{1, 5, 16, 40, 200, r.Range(1, 64)})
+			if j == nw-1 && r.Chance(1, 3) {
+				sz = opt.MinSize + r.Range(0, 200) // grows past the minimum size at the end
+			}
+			d := bytes.Repeat([]byte{byte('A' + (i*9+j)%26)}, sz)
+			switch r.Intn(8) {
+			case 0:
+				k.Prog = append(k.Prog, opT{K: "C", Chunks: [][]byte{d, []byte{byte('0' + i)}}})
+			case 1:
+				k.Prog = append(k.Prog, opT{K: "F"}, opT{K: "B", Data: d})
+			default:
+				k.Prog = append(k.Prog, opT{K: "B", Data: d})
+			}
+		}
+		g[i] = k
+	}
+	return g
+}
+
+// fixedGroups: request A holds 200 bytes back while request B is served completely; then A goes on.
+func fixedGroups() [][]caseT {
+	gz := sp("gzip")
+	ct := opT{K: "H", Key: "Content-Type", Vals: []string{"text/plain"}}
+	a := func(more int) caseT {
+		p := []opT{ct, {K: "B", Data: bytes.Repeat([]byte("A"), 200)}, {K: "H", Key: "X-Pause", Vals: []string{"1"}}, {K: "H", Key: "X-Pause", Vals: []string{"2"}}}
+		if more > 0 {
+			p = append(p, opT{K: "B", Data: bytes.Repeat([]byte("a"), more)})
+		}
+		return caseT{Path: "/o0", AE: gz, Prog: p}
+	}
+	b := caseT{Path: "/o1", AE: gz, Prog: []opT{ct, {K: "B", Data: bytes.Repeat([]byte("B"), 300)}}}
+	return [][]caseT{
+		{func() caseT { k := a(0); k.Opt = optT{MinSize: 1024}; return k }(), b},
+		{func() caseT { k := a(3000); k.Opt = optT{MinSize: 1024}; return k }(), b},
+		{func() caseT { k := a(0); k.Opt = optT{MinSize: 4096}; return k }(), b, {Path: "/o2", AE: sp("br"), Prog: []opT{ct, {K: "B", Data: []byte("cc")}, {K: "B", Data: []byte("CC")}}}},
+	}
+}
+
 // fixedCases are the witnesses of the §7 findings and the boundary cases; they run before the random ones.
 func fixedCases() []*caseT {
 	gz := sp("gzip")
@@ -353,6 +453,15 @@ func fixedCases() []*caseT {
 		{Path: "/p", AE: gz, Recovery: true, Prog: []opT{{K: "H", Key: "X-Custom", Vals: []string{"v1"}}, {K: "St", Code: 202}, {K: "Pn"}}},
 		// K15m (open): the panic comes after the compressed stream has started
 		{Path: "/p", AE: gz, Recovery: true, Prog: []opT{ct, {K: "B", Data: []byte("partial")}, {K: "Pn"}}},
+		// weights are case-insensitive: a coding refused with Q=0 is not used
+		{Path: "/p", AE: sp("gzip;Q=0"), Prog: []opT{ct, {K: "W", Code: 200}, {K: "B", Data: []byte("hello")}}},
+		{Path: "/p", AE: sp("br;Q=0, gzip;q=0.5"), Prog: []opT{ct, {K: "W", Code: 200}, {K: "B", Data: []byte("hello")}}},
+		{Path: "/p", AE: sp("GZip ; Q = 0.000 , BR;q=0"), Prog: []opT{ct, {K: "W", Code: 200}, {K: "B", Data: []byte("hello")}}},
+		// a header renamed after WriteHeader (one deleted, one added: the map does not grow)
+		{Path: "/p", AE: gz, Prog: []opT{ct, {K: "H", Key: "Cache-Control", Vals: []string{"no-store"}}, {K: "H", Key: "X-Early", Vals: []string{"original"}}, {K: "W", Code: 200},
+			{K: "D", Key: "Cache-Control"}, {K: "H", Key: "X-Cache-Control", Vals: []string{"private"}}, {K: "B", Data: []byte("body")}}},
+		{Path: "/p", AE: gz, Opt: optT{MinSize: 1024}, Prog: []opT{ct, {K: "H", Key: "Cache-Control", Vals: []string{"no-store"}}, {K: "H", Key: "X-Early", Vals: []string{"original"}}, {K: "W", Code: 200},
+			{K: "D", Key: "Cache-Control"}, {K: "D", Key: "X-Early"}, {K: "H", Key: "X-Late", Vals: []string{"1"}}, {K: "B", Data: []byte("body")}}},
 		// an outer middleware already declared an encoding: the middleware stays out
 		{Path: "/p", AE: gz, Pre: [][2]string{{"Content-Encoding", "x-pre"}}, Prog: []opT{ct, {K: "B", Data: []byte("pre-encoded")}}},
 		{Path: "/p", AE: gz, Pre: [][2]string{{"X-Outer", "1"}, {"Vary", "Origin"}}, Prog: []opT{{K: "B", Data: []byte("<html>x")}}},
